@@ -3,6 +3,7 @@ package main
 import (
 	"fmt"
 	"net/url"
+	"strconv"
 	"strings"
 
 	"verif/harness/sx"
@@ -395,6 +396,59 @@ func genEtagUnit() []Case {
 		for _, e := range etags {
 			out = append(out, unitCase{"etag", []sx.V{sx.OptS(s), sx.S(e)}})
 		}
+	}
+	return out
+}
+
+// ---------- C06 end to end: real codecs through the real server ----------
+func genRecompE2E(tier string, rng *Rng) []Case {
+	n := 400
+	if tier == "thorough" {
+		n = 4000
+	}
+	aes := []string{"", "gzip", "br", "gzip, br", "gzip, deflate, br", "gzip;q=1.0, br;q=0.5", "br;q=1", "identity", "deflate", "GZIP", "x-gzip"}
+	encs := []string{"", "", "gzip", "gzip", "br", "gzip-multi"}
+	cts := []string{"text/html", "text/plain; charset=utf-8", "application/json", "image/png", "application/octet-stream"} // always one: without it Go's server sniffs a type itself
+	ccs := []string{"", "", "max-age=60", "no-transform", "public, No-Transform"}
+	var out []Case
+	for i := 0; i < n; i++ {
+		enc := encs[rng.Intn(len(encs))]
+		size := rng.Pick2([]int{0, 1, 17, 1000, 40000, 150000})
+		var b strings.Builder
+		for b.Len() < size {
+			b.WriteString(rng.Pick([]string{"lorem ipsum ", "{\"k\": [1,2,3]} ", "\x00\xff\x10binary ", "aaaaaaaaaaaaaaaaaaaaaaaa"}))
+		}
+		content := b.String()
+		if len(content) > size {
+			content = content[:size]
+		}
+		hdrs := []KV{}
+		if ct := cts[rng.Intn(len(cts))]; ct != "" {
+			hdrs = append(hdrs, KV{"Content-Type", ct})
+		}
+		if cc := ccs[rng.Intn(len(ccs))]; cc != "" {
+			hdrs = append(hdrs, KV{"Cache-Control", cc})
+		}
+		switch enc {
+		case "gzip", "gzip-multi":
+			hdrs = append(hdrs, KV{"Content-Encoding", "gzip"})
+		case "br":
+			hdrs = append(hdrs, KV{"Content-Encoding", "br"})
+		}
+		if rng.Chance(70, 100) {
+			hdrs = append(hdrs, KV{"Content-Length", strconv.Itoa(len(content))}) // for an encoded body: replaced by the length on the wire
+		}
+		if rng.Chance(20, 100) {
+			hdrs = append(hdrs, KV{"Vary", rng.Pick([]string{"Origin", "Accept-Encoding", "accept-encoding, Origin"})})
+		}
+		rule := Rule{Enabled: true, Path: "/r/*", Dest: "http://o.test/$1", Type: 1, Recomp: rng.Chance(80, 100)}
+		req := Req{Method: rng.Pick([]string{"GET", "GET", "GET", "HEAD", "POST"}), Host: "client.test", Target: "/r/x"}
+		if ae := aes[rng.Intn(len(aes))]; ae != "" {
+			req.Hdrs = append(req.Hdrs, KV{"Accept-Encoding", ae})
+		}
+		c := RouteCase{Rules: []Rule{rule}, Req: req,
+			Script: []HostScript{{"o.test", []Behaviour{{Status: 200, Hdrs: hdrs, Body: content, Enc: enc}}}}}
+		out = append(out, routeCase{c})
 	}
 	return out
 }
